@@ -432,6 +432,7 @@ pub fn gen_renum<W: Write>(w: &mut W, tier: &str, seed: u64) {
             _ => 2 + rng.below(12),
         };
         let mut pre: Vec<String> = vec![];
+        let mut keys: Vec<u16> = vec![];
         for i in 0..cnt {
             let k = match rng.below(6) {
                 0 => *rng.pick(&t).min(&65529),
@@ -440,9 +441,25 @@ pub fn gen_renum<W: Write>(w: &mut W, tier: &str, seed: u64) {
                 3 => 65529 - rng.below(30) as u16,
                 _ => rng.below(65530) as u16,
             };
+            keys.push(k);
             pre.push(format!("ins {} {}", k, hex(&format!("REM x{}", i))));
         }
         let pre = pre.join(";");
+        // the interesting arguments sit at and next to the stored numbers (new start = last kept line, ...)
+        keys.sort();
+        keys.dedup();
+        keys.truncate(8);
+        for &ka in &keys {
+            for da in [-1i32, 0, 1] {
+                for &kb in &keys {
+                    for db in [-1i32, 0, 1] {
+                        let (a, b) = ((ka as i32 + da).clamp(0, 65535), (kb as i32 + db).clamp(0, 65535));
+                        let c = *rng.pick(&[1u16, 2, 10, 1000]);
+                        emit(w, "K", &format!("LST {};renumplan {} {} {};renum {} {} {};list - 65529", pre, a, b, c, a, b, c));
+                    }
+                }
+            }
+        }
         for &a in &t {
             for &b in &t {
                 for &c in &t {
